@@ -9,7 +9,9 @@
    single_word_token: the word stands in the text as one Word token.  In the second half of this file (theorems C06_text_..,
    C06_one_word_.., C06_simple_word_.., C06_f24_..) the tokens are no longer given: `doc_words u src` computes them
    with C02's model of PlainEnglish::parse + the passes of Document::parse (u = Unicode predicates of the lexer),
-   `one_word u w` decides whether w alone is exactly one Word token, `lint_text` = tokenise, then lint. *)
+   `one_word u w` decides whether w alone is exactly one Word token, `lint_text` = tokenise, then lint.
+   Phase 5 (end of the file): for SENTENCES of a decidable class (Model/C06Sentence.v) the tokens are proved, so the
+   theorems C06_sentence_.. carry no premise about tokens at all; the one-token entries outside the alnum class are classified. *)
 Require Import Base Tables_lexer Lexer Condense Tables_spellnorm SpellDecision SpellDecisionProofs.
 Require Import Tables_f24 C06Words C06WordsProofs C06TextProofs C06AlnumProofs C06DictProofs.
 Require Import TokenInv C06Sentence C06SentenceProofs C06ShapesProofs.
